@@ -8,6 +8,25 @@ HERE = os.path.dirname(os.path.dirname(os.path.abspath(__file__)))
 TECH = "custom AST static analysis: "
 
 CLAIMS = {
+    "C03": dict(
+        text="Decides structural necessary conditions of evaluate(): arity + exhaustiveness of the legacy dispatch modulo the routing guard (and that no caller "
+        "bypasses the guard), coverage of the second strategy, the aggregator table (and/forall -> all, or/exists -> any, not -> not_, vacuous values), "
+        "completeness of quantifier domains (path-index totality for any branching degree by interval analysis; unfiltered enumeration of sub-trie items / "
+        "matches), and unnegated plumbing of atom verdicts and of ISLaSolver.check. Does NOT decide that each verdict equals the specification's for every "
+        "formula and tree, nor exceptions for particular inputs.",
+        note="Trusted: ThreeValuedTruth connectives (shape-checked in C06), predicates (C04), SMT atoms (C05).",
+        technique=TECH + "dispatch exhaustiveness with caller-side guard facts, aggregator-table recognition, interval analysis of the trie key codec",
+        design="5/C03",
+    ),
+    "C06": dict(
+        text="Gate-only: decides that every definite verdict on a possibly open tree is dominated by the corresponding openness test (SMT atoms incl. the Z3 "
+        "fallback; forall/exists vs. potential matches over all open leaves; falsy answers of the might-match oracle only when the nonterminal is unreachable "
+        "from the leaf; semantic predicates; quantifier dropping in the second strategy), and that the three-valued connectives have Kleene's shape. "
+        "Reduces the property to correctness of grammar reachability and of the match-expression prefix oracle, which are NOT decided.",
+        note="Trusted: graph.reachable; can_extend_leaf_to_make_quantifier_match_parent; closures run after their definition site.",
+        technique=TECH + "gate dominance via path facts (incl. after-exit facts and a small propositional closure), shape recognition of Kleene connectives",
+        design="5/C06",
+    ),
     "C07": dict(
         text="Decides the structural preconditions of the parse/unparse round trip: unparser dispatch total over the computed set of concrete Formula "
         "classes, emitted keywords/operator spellings are lexer literals, SMT string-literal escape writer/reader pair, match-expression escape pair "
